@@ -55,7 +55,7 @@ def e1_e5(ctx) -> None:
                 continue
             bad.setdefault((esc.exc, esc.origin_fn, esc.origin), set()).add(en.short)
     ctx.extra["escaping_classes"] = sorted(classes_seen)
-    ctx.count("E1", n_ok, 40, "allowed (entry, escaping exception, origin) triples")
+    ctx.count("E1", n_ok, 400, "allowed (entry, escaping exception, origin) triples")
     ctx.ok("E1", "allowed escapes", f"{n_ok} (entry, exception, origin) triples are JoseError / ValueError subclasses")
     # how many external call sites were classified
     ext_sites = 0
